@@ -1,8 +1,57 @@
 import Crusta.Proofs.Oracle
+import Crusta.Proofs.DynHistory
+
+/-!
+# C09 — redundant or invalid updates never corrupt a dynamic solver (property theorems)
+
+Model and tie as for C08.  `update_call_contract` is proved for the buffered solvers of all three
+semantics (the update path does not depend on the semantics); the statement about later answers
+is `C08.dynamic_answers_for_current_framework` (complete and stable solvers), whose framework is
+`runOps ops`: a history in which rejected or redundant updates have no effect.
+-/
+
 namespace Crusta.C09
-open Crusta
-/-- the judge applied to every answer of a dynamic solver is the exact judge of C02–C04 run on the
-framework as it stands at the moment of the query -/
+open Crusta Crusta.Dyn
+
 theorem judge_is_exact (af : AF) (hwf : af.WF) (q : Query) (a : Answer) :
     checkAnswer af q a = .ok () ↔ Conforms af q a := checkAnswer_iff af hwf q a
+
+/-- **the update calls.**  On every state satisfying the solver invariant: the call reports `ok`
+or `err` exactly as the framework store does on the pending framework (C12 says when that is), never
+panics; after an error the solver state is unchanged; an update that does not change the framework
+(an argument or an attack that is already present) leaves the whole solver state unchanged; and
+the invariant is kept, so the solver stays usable. -/
+theorem update_call_contract {sem : DSem} {d : DState} {w : World} (h : QInv sem d w) (op : StoreOp) :
+    QInv sem (d.update op).1 w ∧
+    ((d.update op).2 = .ok ∧ d.pending.step op = .ok (d.update op).1.pending ∨
+     (d.update op).2 = .err ∧ d.pending.step op = .err d.pending ∧ (d.update op).1 = d) ∧
+    ((d.update op).1.pending = d.pending → (d.update op).1 = d) := update_preserves h op
+
+/-- for every reachable state of the complete and stable solvers the contract applies, and the
+pending framework is the one obtained from the calls made so far with the rejected ones dropped -/
+theorem reachable_states_keep_contract {sem : DSem} (hsem : sem ≠ .PR) {fuel : Nat} {ops : List StoreOp}
+    {d : DState} {w : World} (hreach : Reach sem fuel ops d w) (op : StoreOp) :
+    Store.runOps Store.empty ops = some d.pending ∧
+    Store.runOps Store.empty (ops ++ [op]) = some (d.update op).1.pending ∧
+    ((d.update op).2 = .err → (d.update op).1 = d) := by
+  obtain ⟨hq, _, hops⟩ := reach_inv hsem hreach
+  obtain ⟨_, _, hops'⟩ := reach_inv hsem (Reach.update op hreach)
+  refine ⟨hops, hops', ?_⟩
+  intro herr
+  rcases (update_preserves hq op).2.1 with ⟨hok, _⟩ | ⟨_, _, hd⟩
+  · rw [hok] at herr; cases herr
+  · exact hd
+
+/-- which updates the store rejects: unknown argument to remove, unknown endpoint of an attack,
+unknown attack to remove (from the store theorems of C12) -/
+theorem store_rejects_exactly {s : Store} (hinv : s.Inv) :
+    (∀ l, (∀ id, ¬ s.Live id l) → s.step (.remArg l) = .err s) ∧
+    (∀ la lb, ((∀ a, ¬ s.Live a la) ∨ (∀ b, ¬ s.Live b lb)) → s.step (.newAtt la lb) = .err s) ∧
+    (∀ la lb, ((∀ a, ¬ s.Live a la) ∨ (∀ b, ¬ s.Live b lb)) → s.step (.remAtt la lb) = .err s) ∧
+    (∀ la lb a b, s.Live a la → s.Live b lb → ¬ s.HasAtt a b → s.step (.remAtt la lb) = .err s) :=
+  ⟨fun l h => (Store.removeArgument_spec hinv l).2 h,
+   fun la lb h => (Store.newAttack_spec hinv la lb).2 h,
+   fun la lb h => (Store.removeAttack_spec hinv la lb).2 h,
+   fun la lb a b ha hb hn => ((Store.removeAttack_spec hinv la lb).1 a b ha hb).2 hn⟩
+
 end Crusta.C09
